@@ -8,7 +8,12 @@ package vlib
 // not depend on scheduling).
 
 import (
+	"bytes"
 	"encoding/base64"
+	"encoding/binary"
+	"runtime/debug"
+	"strings"
+	"syscall"
 	"encoding/json"
 	"fmt"
 	"os"
@@ -46,6 +51,92 @@ type Shard struct {
 	out      shardOut
 	distinct map[[16]byte]struct{}
 	seenViol map[string]bool
+	side     []byte // shared file mapping holding the case being executed (survives the death of the process)
+}
+
+// Current records the case the child is about to execute (a JSON-marshalable replay detail, the same value that would
+// be passed to Violation). If the child then dies in a way recover() cannot catch (fatal error: stack overflow,
+// os.Exit in the code under test, out of memory) the parent re-runs exactly this case in fresh processes and, if they
+// die too, reports it as a violation keyed by the case.
+func (s *Shard) Current(detail any) {
+	if s.side == nil {
+		return
+	}
+	b, err := json.Marshal(detail)
+	if err != nil || len(b) > len(s.side)-8 {
+		binary.LittleEndian.PutUint32(s.side, 0)
+		return
+	}
+	binary.LittleEndian.PutUint32(s.side, 0)
+	copy(s.side[8:], b)
+	binary.LittleEndian.PutUint32(s.side, uint32(len(b)))
+}
+
+func openSide(path string) []byte {
+	f, err := os.OpenFile(path, os.O_RDWR|os.O_CREATE|os.O_TRUNC, 0o644)
+	if err != nil {
+		return nil
+	}
+	defer f.Close()
+	if f.Truncate(4<<20) != nil {
+		return nil
+	}
+	m, err := syscall.Mmap(int(f.Fd()), 0, 4<<20, syscall.PROT_READ|syscall.PROT_WRITE, syscall.MAP_SHARED)
+	if err != nil {
+		return nil
+	}
+	return m
+}
+
+func readSide(path string) json.RawMessage {
+	b, err := os.ReadFile(path)
+	if err != nil || len(b) < 8 {
+		return nil
+	}
+	n := int(binary.LittleEndian.Uint32(b))
+	if n == 0 || 8+n > len(b) || !json.Valid(b[8:8+n]) {
+		return nil
+	}
+	return json.RawMessage(b[8 : 8+n])
+}
+
+// runReplayChild executes one recorded case (file in replay-artefact format) in a fresh process of this test binary and
+// reports whether that process died (neither a normal verdict 0/1 nor a harness error), with the head of its stderr.
+func runReplayChild(testName, replayFile string) (died bool, head string) {
+	cmd := exec.Command(os.Args[0], "-test.run", "^"+testName+"$", "-test.timeout", "0")
+	cmd.Env = append(os.Environ(), "VERIF_REPLAY="+replayFile, "VERIF_REPLAY_CHILD=1", "VERIF_SHARD_SPEC=")
+	var eb bytes.Buffer
+	cmd.Stderr = &eb
+	cmd.Stdout = &eb
+	err := cmd.Run()
+	ee, ok := err.(*exec.ExitError)
+	if err == nil || ok && ee.ExitCode() == 1 || strings.Contains(eb.String(), "HARNESS-ERROR") {
+		return false, ""
+	}
+	for _, l := range strings.Split(eb.String(), "\n") {
+		if strings.HasPrefix(l, "fatal error") || strings.HasPrefix(l, "panic") || strings.HasPrefix(l, "runtime:") || strings.HasPrefix(l, "signal") {
+			return true, l
+		}
+	}
+	return true, fmt.Sprint(err)
+}
+
+// ReplayDied is called first in a harness's replay branch: it runs the replay once in a fresh process; if that process
+// dies, the violation is reported here and true is returned (the caller must not execute the case in this process).
+func ReplayDied(r *Run, testName string) bool {
+	if os.Getenv("VERIF_REPLAY_CHILD") != "" {
+		debug.SetMaxStack(64 << 20)
+		return false
+	}
+	if died, head := runReplayChild(testName, r.Replay); died {
+		fmt.Printf("replay: the case kills the process: %s\n", head)
+		r.States.Add(1)
+		r.Transitions.Add(1)
+		r.Traces.Add(1)
+		r.Violation("replay", "executing this case kills the process: "+head, map[string]any{"replay_of": r.Replay})
+		return true
+	}
+	return false
 }
 
 func (s *Shard) Quick() bool { return s.Tier != "thorough" }
@@ -115,6 +206,8 @@ func RunSharded(r *Run, testName string, body func(s *Shard)) {
 		}
 		s.deadline = time.UnixMilli(ms)
 		s.out.Outcomes, s.out.Extra = map[string]int64{}, map[string]int64{}
+		s.side = openSide(os.Getenv("VERIF_SHARD_OUT") + ".cur")
+		debug.SetMaxStack(64 << 20) // runaway recursion in the code under test dies quickly
 		body(s)
 		for k := range s.distinct {
 			s.out.Distinct = append(s.out.Distinct, base64.StdEncoding.EncodeToString(k[:]))
@@ -133,6 +226,7 @@ func RunSharded(r *Run, testName string, body func(s *Shard)) {
 	}
 	outs := make([]shardOut, W)
 	errs := make([]error, W)
+	died := make([]json.RawMessage, W)
 	var wg sync.WaitGroup
 	for k := 0; k < W; k++ {
 		wg.Add(1)
@@ -145,12 +239,16 @@ func RunSharded(r *Run, testName string, body func(s *Shard)) {
 			cmd.Stdout = os.Stderr
 			err := cmd.Run()
 			b, rerr := os.ReadFile(out)
-			if err != nil || rerr != nil {
-				errs[k] = fmt.Errorf("shard child %d: %v %v", k, err, rerr)
-				return
+			if err == nil && rerr == nil {
+				rerr = json.Unmarshal(b, &outs[k])
 			}
-			if jerr := json.Unmarshal(b, &outs[k]); jerr != nil {
-				errs[k] = fmt.Errorf("shard child %d: %v", k, jerr)
+			if err != nil || rerr != nil { // the child died: which case was it executing?
+				outs[k] = shardOut{}
+				if d := readSide(out + ".cur"); d != nil {
+					died[k] = d
+				} else {
+					errs[k] = fmt.Errorf("shard child %d: %v %v (no current-case record)", k, err, rerr)
+				}
 			}
 		}()
 	}
@@ -161,6 +259,33 @@ func RunSharded(r *Run, testName string, body func(s *Shard)) {
 		}
 	}
 	var viols []shardViol
+	nDied := 0
+	for k, d := range died {
+		if d == nil {
+			continue
+		}
+		nDied++
+		r.Capped(fmt.Sprintf("worker process %d died; its remaining work items were not explored", k))
+		tmp := filepath.Join(scratch, fmt.Sprintf("shard-%s-crash-%d.json", r.ID, k))
+		b, _ := json.Marshal(map[string]any{"case": d})
+		_ = os.WriteFile(tmp, b, 0o644)
+		r.Sample(map[string]any{"case": d, "outcome": "the worker process died while executing this case"})
+		d1, head := runReplayChild(testName, tmp)
+		d2, _ := runReplayChild(testName, tmp)
+		if d1 && d2 {
+			key := string(d)
+			if len(key) > 600 {
+				key = key[:600]
+			}
+			viols = append(viols, shardViol{"crash: process died, case=" + key,
+				"executing this case kills the process in a way recover() cannot catch (reproduced twice in a fresh process): " + head, d})
+		} else {
+			fmt.Fprintf(os.Stderr, "NOTE: worker %d died but its last case %s does not kill a fresh process\n", k, string(d))
+		}
+	}
+	if nDied > W/2 && len(viols) == 0 {
+		r.HarnessError("%d of %d worker processes died without a reproducible cause", nDied, W)
+	}
 	for k := range outs {
 		o := &outs[k]
 		r.States.Add(o.States)
